@@ -62,6 +62,7 @@ REVERT_EXPECT: Dict[str, List[Tuple[str, str]]] = {
     "d569ba9": [("C15", "K8.rebuild-agreement")],
     "c5c3f8c": [("C13", "K11.protocol")],
     "e83ed45": [("C11", "K2.class-invariant")],
+    "9d59313": [("C03", "K8.spin-ordering")],
 }
 
 
